@@ -20,6 +20,7 @@ def run():
     E.trace_validation(res, work, n_random=4000 if thorough else 800)
     E.unit_test_suite_traces(res, work, "rc")
     E.replay_simulated("C07", res, work, 4000 if thorough else 400)
+    E.deep_fc_results(res, work, 3000 if thorough else 500)
     res.coverage["exhaustive"] = True
     res.coverage["rule"] = (f"every program <= {n} leaves x every RC assignment; the real format_constraints_expression is parsed by the real "
                             "parser, compared with the spec's AST, and evaluated by the real format_constraint_evaluation under every truth "
@@ -38,6 +39,13 @@ def replay(case):
         E._KM[int(k)] = v
         E._KM_INV[v] = int(k)
     asg = {int(k): v for k, v in case["asg"].items()}
+    if case.get("kind") == "deep-fc":
+        from common import Work as _W
+        w = _W(PID + "replay")
+        _, bad = E.result_level_decision(w, [(case["expr"], asg)], tag="deepfc-replay")
+        w.cleanup()
+        print("expression:", case["expr"], asg, "->", "contradicts the specification: " + str(bad[0][1:]) if bad else "agrees with the specification")
+        return 1 if bad else 0
     got = asyncio.run(E.eval_real(case["expr"], asg))
     print("expression:", case["expr"], asg, "->", got)
     acc = E.Acc()
